@@ -216,8 +216,16 @@ func (x *Exec) havocLoop(st *State, fr *Frame, l *loopInfo) {
 				}
 			}
 		}
-		// slices only ever grow by append in this code base: keep nilness unknown, length >= 0
 		fr.env[ph] = nv
+		// the range-over-slice idiom of the SSA builder: idx = phi[-1, idx+1]; if idx+1 < n.
+		// idx < n is an invariant of that shape (n is loop invariant).
+		if ph.Comment == "rangeindex" {
+			if n := rangeBound(ph, l); n != nil {
+				if nvl, ok := fr.env[n]; ok {
+					st.assume(Lt(x.scalar(st, nv), x.scalar(st, nvl)))
+				}
+			}
+		}
 	}
 	// heap locations written in the body
 	for b := range l.body {
@@ -276,6 +284,32 @@ func inductionLowerBound(ph *ssa.Phi, l *loopInfo) (int64, bool) {
 		return 0, false
 	}
 	return *start, true
+}
+
+// rangeBound finds n in "if phi+1 < n" of a range loop header when n is defined outside the loop.
+func rangeBound(ph *ssa.Phi, l *loopInfo) ssa.Value {
+	for _, in := range l.header.Instrs {
+		iff, ok := in.(*ssa.If)
+		if !ok {
+			continue
+		}
+		cmp, ok := iff.Cond.(*ssa.BinOp)
+		if !ok || cmp.Op != token.LSS {
+			return nil
+		}
+		inc, ok := cmp.X.(*ssa.BinOp)
+		if !ok || inc.Op != token.ADD || inc.X != ph {
+			return nil
+		}
+		if c, ok := inc.Y.(*ssa.Const); !ok || c.Int64() != 1 {
+			return nil
+		}
+		if definedIn(l, cmp.Y) {
+			return nil
+		}
+		return cmp.Y
+	}
+	return nil
 }
 
 func monotoneUp(ph *ssa.Phi, l *loopInfo) bool {
